@@ -47,11 +47,10 @@ pub proof fn lemma_pypi_norm_nonempty(s: Seq<char>)
     }
 }
 
-/// C01 (PackageType instance, values without a checksum qualifier)
+/// C01 (PackageType instance)
 pub proof fn theorem_c01_typed(s: Seq<char>, g: GenericPurl<PackageType>, r2: Result<GenericPurl<PackageType>, PackageError>)
     requires
         parse_post::<PackageType>(s, Ok::<GenericPurl<PackageType>, PackageError>(g)),
-        !has_key(g.parts.qualifiers.qualifiers@, checksum_key()),
         parse_post::<PackageType>(canon_spec(g.package_type.type_text(), g.parts), r2),
     ensures
         r2 is Ok,
@@ -75,29 +74,12 @@ pub proof fn theorem_c01_typed(s: Seq<char>, g: GenericPurl<PackageType>, r2: Re
         parts_are(p0, a, b) && #[trigger] PackageType::finish_rel(t0, p0, t1, p1, fr) && build_post::<PackageType>(t1, p1, fr, r);
     assert(pkg_finish_rel(t0, p0, t1, p1, fr));
     assert(fr is Ok);       // an error from the hook would have been returned
-    // the parts after the hook are still "parsed parts" except for the name: normality is shown directly
+    assert(p1.qualifiers == p0.qualifiers);
+    lemma_first_build::<PackageType>(t1, p1, fr, g);
     let ty1 = type_name(t1);
     lemma_type_name_facts(t1, t1);
-    assert(g.package_type == t1 && g.package_type.type_text() == ty1);
-    let q2 = nonempty_part(p1.qualifiers.qualifiers@);
-    lemma_checksum_key();
-    assert(wf_seq(p1.qualifiers.qualifiers@));
-    lemma_nonempty_wf(p1.qualifiers.qualifiers@);
-    lemma_nonempty_subset(p1.qualifiers.qualifiers@);
-    if has_key(q2, checksum_key()) {
-        let p = pos_of(q2, checksum_key());
-        lemma_has_pair_pos_key(q2, checksum_key());
-        let gq = g.parts.qualifiers.qualifiers@;
-        assert(gq[p].0 == q2[p].0);
-        assert(has_key(gq, checksum_key()));
-    }
-    lemma_c07_of_phases(s);
-    let ns_segs = if b.ns.len() == 0 { Seq::<Seq<char>>::empty() } else {
-        choose|segs: Seq<Seq<char>>| #![auto] segs.len() > 0 && b.ns == join_segs(segs) && split_spec(b.ns, '/') == segs
-            && forall|i: int| 0 <= i < segs.len() ==> clean_ns_seg(#[trigger] segs[i]) };
-    let sub_segs = if a.sub.len() == 0 { Seq::<Seq<char>>::empty() } else {
-        choose|segs: Seq<Seq<char>>| #![auto] segs.len() > 0 && a.sub == join_segs(segs) && split_spec(a.sub, '/') == segs
-            && forall|i: int| 0 <= i < segs.len() ==> clean_sub_seg(#[trigger] segs[i]) };
+    lemma_parsed_segments(s);
+    let (ns_segs, sub_segs) = choose|ns_segs: Seq<Seq<char>>, sub_segs: Seq<Seq<char>>| #[trigger] seg_shape(b.ns, a.sub, ns_segs, sub_segs);
     assert(norm_parts(g.parts, ns_segs, sub_segs));
     lemma_parse_canon(ty1, g.parts, ns_segs, sub_segs);
     let c = canon_spec(ty1, g.parts);
@@ -128,23 +110,17 @@ pub proof fn theorem_c01_typed(s: Seq<char>, g: GenericPurl<PackageType>, r2: Re
         _ => {},
     }
     assert(fr2 is Ok && u1 == t1 && q1.name@ == g.parts.name@);
-    let gq = g.parts.qualifiers.qualifiers@;
-    let qq = q1.qualifiers.qualifiers@;
-    assert(kvs(qq) == kvs(gq));
-    lemma_kvs_values_nonempty(gq, qq);
-    lemma_nonempty_id(qq);
-    lemma_kvs_no_key(gq, qq, checksum_key());
-    assert(r2 is Ok);
+    assert(q1.qualifiers == q0.qualifiers);
+    lemma_normal_quals_congr(g.parts.qualifiers.qualifiers@, q1.qualifiers.qualifiers@);
+    lemma_rebuild::<PackageType>(u1, q1, fr2, r2);
     let g2 = r2->Ok_0;
-    assert(g2.parts.qualifiers.qualifiers@ == qq);
     assert(same_texts(g2.parts, g.parts));
     lemma_canon_congr(ty1, g2.parts, g.parts);
 }
 
 /// what C04 / C08 say of every typed value handed out: the name already obeys the type's rule, maven has a namespace
 pub open spec fn handed_out_typed(g: GenericPurl<PackageType>) -> bool {
-    g.parts.name@.len() > 0 && wf_seq(g.parts.qualifiers.qualifiers@)
-    && (forall|i: int| 0 <= i < g.parts.qualifiers.qualifiers@.len() ==> (#[trigger] g.parts.qualifiers.qualifiers@[i]).1@.len() > 0)
+    g.parts.name@.len() > 0 && normal_quals(g.parts.qualifiers.qualifiers@)
     && match g.package_type {
         PackageType::NuGet => lower_seq(g.parts.name@) == g.parts.name@,
         PackageType::PyPI => pypi_norm(g.parts.name@) == g.parts.name@,
@@ -157,20 +133,10 @@ pub open spec fn handed_out_typed(g: GenericPurl<PackageType>) -> bool {
 pub proof fn lemma_built_is_handed_out_typed(t0: PackageType, p0: PurlParts, t1: PackageType, p1: PurlParts, fr: Result<(), PackageError>, g: GenericPurl<PackageType>)
     requires wf_seq(p0.qualifiers.qualifiers@), pkg_finish_rel(t0, p0, t1, p1, fr),
         build_post::<PackageType>(t1, p1, fr, Ok::<GenericPurl<PackageType>, PackageError>(g)),
-        !has_key(g.parts.qualifiers.qualifiers@, checksum_key()),
     ensures handed_out_typed(g)
 {
-    lemma_checksum_key();
-    let q2 = nonempty_part(p1.qualifiers.qualifiers@);
-    lemma_nonempty_wf(p1.qualifiers.qualifiers@);
-    lemma_nonempty_subset(p1.qualifiers.qualifiers@);
-    if has_key(q2, checksum_key()) {
-        let p = pos_of(q2, checksum_key());
-        lemma_has_pair_pos_key(q2, checksum_key());
-        let gq = g.parts.qualifiers.qualifiers@;
-        assert(gq[p].0 == q2[p].0);
-        assert(has_key(gq, checksum_key()));
-    }
+    assert(p1.qualifiers == p0.qualifiers);
+    lemma_first_build::<PackageType>(t1, p1, fr, g);
     match t0 {
         PackageType::NuGet => { lemma_lower_seq_idem(p0.name@); },
         PackageType::PyPI => { lemma_pypi_norm_idem(p0.name@); },
@@ -178,11 +144,11 @@ pub proof fn lemma_built_is_handed_out_typed(t0: PackageType, p0: PurlParts, t1:
     }
 }
 
-/// C10 (PackageType, values without a checksum qualifier): build() applied to the value's own type and parts succeeds and
-/// returns the same type, the same texts and the same canonical string
+/// C10 (PackageType): build() applied to the value's own type and parts succeeds and returns the same type, the same texts
+/// and the same canonical string
 pub proof fn theorem_c10_typed(g: GenericPurl<PackageType>, t1: PackageType, p1: PurlParts, fr: Result<(), PackageError>, r: Result<GenericPurl<PackageType>, PackageError>)
     requires
-        handed_out_typed(g), !has_key(g.parts.qualifiers.qualifiers@, checksum_key()),
+        handed_out_typed(g),
         PackageType::finish_rel(g.package_type, g.parts, t1, p1, fr), build_post::<PackageType>(t1, p1, fr, r),
     ensures
         r is Ok, r->Ok_0.package_type == g.package_type, same_texts(r->Ok_0.parts, g.parts),
@@ -191,8 +157,7 @@ pub proof fn theorem_c10_typed(g: GenericPurl<PackageType>, t1: PackageType, p1:
     assert(pkg_finish_rel(g.package_type, g.parts, t1, p1, fr));
     assert(fr is Ok && t1 == g.package_type && p1.name@ == g.parts.name@);
     assert(p1.qualifiers == g.parts.qualifiers);
-    lemma_nonempty_id(g.parts.qualifiers.qualifiers@);
-    assert(r is Ok);
+    lemma_rebuild::<PackageType>(t1, p1, fr, r);
     assert(same_texts(r->Ok_0.parts, g.parts));
     lemma_canon_congr(type_name(t1), r->Ok_0.parts, g.parts);
 }
